@@ -170,7 +170,8 @@ def run_task(ctx, shape, opts):
     tokens, padtok, prefix, suffix = SPECIALS[shape['special']]
     npre, nsuf = len(prefix), len(suffix)
     nunits = len(iunits)
-    ctx.out('labels', [x.v if isinstance(x.v, int) else str(x.v) for x in labs])
+    sgn = lambda v: v - (1 << 32) if isinstance(v, int) and v >= (1 << 31) else v
+    ctx.out('labels', [sgn(x.v) if isinstance(x.v, int) else str(x.v) for x in labs])
     ctx.out('n_ids', len(ids.items))
     ok_len = len(labs) == npre + nunits + nsuf
     ctx.require(ok_len and all(isinstance(x.v, int) and x.v == (1 << 32) - 1 or x.v == -1 for x in labs[:npre] + labs[len(labs) - nsuf:]),
@@ -371,7 +372,7 @@ def native_outputs(native, shape, inputs):
             return {'panic': v}
         if 'err' in v:
             return {'labels': 'Err'}
-        return {'labels': [x if x >= 0 else (1 << 32) - 1 for x in v['labels']], 'n_ids': len(v['token_ids'])}
+        return {'labels': list(v['labels']), 'n_ids': len(v['token_ids'])}
     k, v = _call(native, shape, inputs, inputs.get('seed', 0))
     if k != 'ok':
         return {'panic': v}
